@@ -832,6 +832,9 @@ var expFlags struct {
 	site       string
 	idsNamed   bool
 	handBuilt  bool
+	mirror     bool
+	gadgets    bool
+	inGadget   bool
 }
 
 func init() {
@@ -851,6 +854,8 @@ func init() {
 			fs.BoolVar(&expFlags.oddTargets, "oddtargets", false, "dangling refs point at JSON null / an empty object instead (C04 only)")
 			fs.StringVar(&expFlags.site, "site", "", "site of the root document: empty (local file) or http")
 			fs.BoolVar(&expFlags.wholeDocs, "wholedocs", false, "a document whose only top-level element is a structured schema IS that schema (whole-document $refs)")
+			fs.BoolVar(&expFlags.gadgets, "gadgets", false, "every graph is run once per root gadget (see rootGadgets)")
+			fs.BoolVar(&expFlags.mirror, "mirror", false, "every graph is doubled by its mirror image in the other document (see mirrored)")
 			fs.BoolVar(&expFlags.handBuilt, "handbuilt", false, "the decoded root is turned into a hand-assembled model (schema unions without the Allows flag)")
 			fs.BoolVar(&expFlags.idsNamed, "idsnamed", false, "with -ids: references into the own document name it instead of being fragment-only")
 			fs.StringVar(&expFlags.ids, "ids", "", "comma list of id classes given (in rotation) to the structured schemas: abs,relfile,reldir,frag")
@@ -999,7 +1004,68 @@ func withFaults(nodes []absNode, rot int) []absNode {
 	return out
 }
 
+// mirrored doubles a graph: every node gets a twin in the OTHER of the first two documents (root <-> document 1).
+// With per-document names the twins carry the same names, so that the same reference text is written in both
+// documents and means another element in each.
+func mirrored(nodes []absNode) []absNode {
+	n := len(nodes)
+	out := append([]absNode(nil), nodes...)
+	for _, a := range nodes {
+		b := a
+		switch a.Doc {
+		case 0:
+			b.Doc = 1
+		case 1:
+			b.Doc = 0
+		}
+		if b.Owner > 0 {
+			b.Owner += n
+		}
+		if b.To > 0 {
+			b.To += n
+		}
+		out = append(out, b)
+	}
+	return out
+}
+
+// rootGadgets: small structures added to the root document.  With per-document names they reuse the names (and so
+// the reference texts) of what the other documents hold: a circular definition, a plain one, an inline response
+// and an inline parameter whose schemas refer to a definition of the root.
+var rootGadgets = [][]absNode{
+	{{T: "st", Kind: "s"}, {T: "ref", Kind: "s", Owner: 1, To: 1}},
+	{{T: "st", Kind: "r"}, {T: "ref", Kind: "s", Owner: 1, To: 3}, {T: "leaf", Kind: "s"}},
+	{{T: "st", Kind: "p"}, {T: "ref", Kind: "s", Owner: 1, To: 3}, {T: "st", Kind: "s"}, {T: "ref", Kind: "s", Owner: 3, To: 3}},
+}
+
+func withGadget(nodes []absNode, g []absNode) []absNode {
+	n := len(nodes)
+	out := append([]absNode(nil), nodes...)
+	for _, a := range g {
+		if a.Owner > 0 {
+			a.Owner += n
+		}
+		if a.To > 0 {
+			a.To += n
+		}
+		out = append(out, a)
+	}
+	return out
+}
+
 func cross1(id int, nodes []absNode) []*expCase {
+	if expFlags.gadgets && !expFlags.inGadget {
+		var out []*expCase
+		expFlags.inGadget = true
+		for _, g := range rootGadgets {
+			out = append(out, cross1(id, withGadget(nodes, g))...)
+		}
+		expFlags.inGadget = false
+		return out
+	}
+	if expFlags.mirror {
+		nodes = mirrored(nodes)
+	}
 	var out []*expCase
 	for _, lay := range strings.Split(expFlags.layouts, ",") {
 		for _, o := range strings.Split(expFlags.opts, ",") {
